@@ -615,6 +615,6 @@ MANIFEST_ENTRY = {
              "conventions and executed; outcomes are compared with a reference evaluator that implements function-call semantics, and "
              "independently the AVM's call-boundary sanitizer checks at every retsub that the caller's pending stack is unchanged and the "
              "declared number of values was consumed and produced. By-reference recursion must be rejected. Held = held on the "
-             "executions listed (recursion shapes executed are enumerated in the evidence)."),
+             "executions listed (recursion shapes executed are enumerated in the evidence). A quarter of the call programs are also compiled with the scratch-slot optimisation on under both conventions (known optimiser defect attributed by mechanism); recursive routines that hand locals by reference to helpers and routines of every declared return type (anytype included) have their own families."),
     "note": "Trusted: vlib/refeval.py call semantics, vlib/avm.py. Known finding (non-local exit from operand position inside a subroutine) is probed, not part of the main workload.",
 }
